@@ -279,6 +279,22 @@ func propC08(c *Ctx) {
 		runFnCase(c, "u", "DayOfWeek", []*variants.Variant{t})
 		runFnCase(c, "s", "dayofweek", []*variants.Variant{t})
 	}
+	// the week day is that of the value AS GIVEN (its own zone), also within a zone offset of midnight, whatever the zone of
+	// the machine: compared with the time.Time the variant was made from, not with what the variant hands back
+	for _, off := range []int{-12, -9, -5, -1, 0, 1, 3, 9, 12, 14} {
+		for _, hm := range [][2]int{{0, 30}, {23, 30}, {11, 45}, {0, 0}, {23, 59}} {
+			raw := time.Date(2024, 1, 1, hm[0], hm[1], 0, 0, time.FixedZone(fmt.Sprintf("Z%+d", off), off*3600))
+			arg := vTime(raw)
+			op := fmt.Sprintf("fn u %s %s", strRunes("DayOfWeek"), encArg(arg))
+			got := safeCall(func() string {
+				return outcome(functions.NewDefaultFunctionCollection().FindByName("DayOfWeek").Calculate([]*variants.Variant{arg}, mgrOf("u")))
+			})
+			c.record(op, true)
+			if want := fmt.Sprintf("ok i%d", int(raw.Weekday())); got != want {
+				c.fail(Failure{Kind: "oracle", Op: op, Impl: got, Note: fmt.Sprintf("DayOfWeek(%s) must be the week day of the value in its own zone: %s", raw.Format(time.RFC3339), want)})
+			}
+		}
+	}
 	var all []*variants.Variant
 	for _, tn := range typeNames {
 		all = append(all, pool[tn]...)
@@ -650,10 +666,10 @@ func (e *ex) evalRef(ops variants.IVariantOperations, m string, binds []binding)
 		case parsers.ShiftRight:
 			return bin(ops.Rsh)
 		case parsers.In:
-			return bin(func(a, b *variants.Variant) (*variants.Variant, error) { return ops.In(b, a) })
+			return bin(func(a, b *variants.Variant) (*variants.Variant, error) { return refIn(ops, a, b) })
 		case parsers.NotIn:
 			return bin(func(a, b *variants.Variant) (*variants.Variant, error) {
-				r, err := ops.In(b, a)
+				r, err := refIn(ops, a, b)
 				if err == nil && r.Type() == variants.Boolean {
 					r = vBool(!r.AsBoolean())
 				}
@@ -668,6 +684,28 @@ func (e *ex) evalRef(ops variants.IVariantOperations, m string, binds []binding)
 		}
 	}
 	return nil, "INTERNAL"
+}
+
+// refIn: the reference meaning of `item IN container`, spelled out with the manager's equality only: Null if either
+// side is Null; for an array, true iff the item equals some element (the element converted to the item's type, the first
+// failing comparison being the error); for any other container, the container's equality with the item
+func refIn(ops variants.IVariantOperations, item, container *variants.Variant) (*variants.Variant, error) {
+	if item.Type() == variants.Null || container.Type() == variants.Null {
+		return vNull(), nil
+	}
+	if container.Type() == variants.Array {
+		for _, e := range container.AsArray() {
+			eq, err := ops.Equal(item, e)
+			if err != nil {
+				return nil, err
+			}
+			if eq.Type() == variants.Boolean && eq.AsBoolean() {
+				return vBool(true), nil
+			}
+		}
+		return vBool(false), nil
+	}
+	return ops.Equal(container, item)
 }
 
 func bindsStr(binds []binding) string {
@@ -776,6 +814,16 @@ func propC01(c *Ctx) {
 			runEvalCase(c, e, expr, "u", nil, "operator-pair-matrix")
 			e2 := &ex{k: 'b', op: o1, kids: []*ex{{k: 'c', text: vals[0]}, {k: 'b', op: o2, kids: []*ex{{k: 'c', text: vals[1]}, {k: 'c', text: vals[2]}}}}}
 			runEvalCase(c, e2, g.render(g.toks(e2, 0, 0), false), "u", nil, "operator-pair-matrix")
+		}
+	}
+	// every binary operator over constants of two different types, in both orders (the second operand is converted to the
+	// first operand's type: the order of the operands decides the result)
+	for _, o := range binOps {
+		for _, pr := range [][2]string{{"2.5", "2"}, {"2", "2.5"}, {"'2'", "2"}, {"2", "'2'"}, {"TRUE", "1"}, {"1", "TRUE"}, {"'abc'", "1"}, {"2", "2"}, {"'1.5'", "1.5"}, {"1.5", "'1.5'"}} {
+			e := &ex{k: 'b', op: o, kids: []*ex{{k: 'c', text: pr[0]}, {k: 'c', text: pr[1]}}}
+			for _, m := range []string{"u", "s"} {
+				runEvalCase(c, e, g.render(g.toks(e, 0, 0), false), m, nil, "mixed-type-operands")
+			}
 		}
 	}
 	c.Notes = append(c.Notes, fmt.Sprintf("%d random syntax trees (depth 1..5, thorough up to 10; all 21 binary operators, NOT, unary sign, IS [NOT] NULL, calls of arity 0..3, indexes) each printed with minimal, random and full parenthesisation, random spacing/comments/keyword case, evaluated under random assignments of integer/long/float/double/string/boolean/null/array/time values with both managers; plus the full operator-pair matrix a op1 b op2 c in both nestings; oracle = direct evaluation of the tree with the manager's own operations", n))
